@@ -35,6 +35,7 @@ func (w *world) probes() []probeRes {
 	}
 	g := w.gen(1 << 20)
 	var hseq int64 = 5_000_000
+	var dlSeq int64
 	nextHeight := func() int64 { return atomic.AddInt64(&hseq, 1) }
 	mk := func(ntx int, missing int) (*types.Block, []*types.Transaction) {
 		txs := []*types.Transaction{g.Tx()}
@@ -161,8 +162,10 @@ func (w *world) probes() []probeRes {
 			return v.AddrRecv != "", ""
 		}, 0},
 		{"download-task-from-good-peer", func(int) (bool, string) {
-			h := nextHeight()
-			w.n.SetPeerHeight(w.good.ID(), 1<<40)
+			// three fresh heights below everything the good peer ever advertises (the refresh loop keeps replacing
+			// what the node knows about it) and above the range used by the hostile download scenarios
+			h := 1500 + 3*atomic.AddInt64(&dlSeq, 1)
+			w.n.SetPeerHeight(w.good.ID(), atomic.LoadInt64(&w.goodAdv))
 			done := make(chan struct{})
 			go func() {
 				w.n.CallHandler(types.EventFetchBlocks, &types.ReqBlocks{Start: h, End: h + 2, Pid: []string{w.good.ID().Pretty()}})
@@ -183,7 +186,7 @@ func (w *world) probes() []probeRes {
 			return k == 3, fmt.Sprintf("delivered=%d", k)
 		}, 0},
 		{"peer-info-refresh-loop", func(try int) (bool, string) {
-			adv := int64(2000 + try)
+			adv := int64(100000 + try)
 			atomic.StoreInt64(&w.goodAdv, adv)
 			dl := time.Now().Add(6 * time.Second)
 			for time.Now().Before(dl) {
